@@ -20,7 +20,7 @@ PROPS = {
         assumptions=["u32 arguments (the API type)"],
     ),
     "C18": dict(
-        modules=["Fuota.Props.C18", "Fuota.Props.C18b"],
+        modules=["Fuota.Props.C18", "Fuota.Props.C18b", "Fuota.Props.C18c"],
         suites=[dict(name="d1f", cfg="matrix"),
                 dict(name="d5f", cfg="matrix", keys=["res", "ops", "recv", "total", "complete"]),
                 dict(name="d5fr", cfg="matrix", oracle_only=True)],
